@@ -265,7 +265,8 @@ class OctetStringEncoder(AbstractItemEncoder):
 
             asn1Spec = value.clone(tagSet=tagSet)
 
-        elif not isOctetsType(value):
+        else:
+            # octets given as a bare Python value need it as well
             baseTag = asn1Spec.tagSet.baseTag
 
             # strip off explicit tags
